@@ -150,10 +150,13 @@ def suite_algo_switch(ctx):
         fixed_level = rng.choice([1, 2, 3, 0x10, 0x7D, 0x7E])
         fixed_seed = bytes(rng.randrange(1, 256) for _ in range(rng.choice([1, 4, 8])))
         for step in range(rng.randrange(2, 6)):
-            sig = rng.choice(['s', 'sl', 'sp', 'slp', 'obj'])
-            tag = bytes([0x41 + step])
             params = rng.choice([None, b'\x01', {'k': step}, 0, b'', False, {}])      # falsy parameters are parameters too
-            algo = mk(sig, tag)
+            if step > 0 and rng.random() < 0.4:
+                pass        # the algorithm stays the very same object: only its parameters change (or nothing does) - it is called again all the same
+            else:
+                sig = rng.choice(['s', 'sl', 'sp', 'slp', 'obj'])
+                tag = bytes([0x41 + step])
+                algo = mk(sig, tag)
             if rng.random() < 0.5:
                 client.config['security_algo'] = algo
                 client.config['security_algo_params'] = params
